@@ -12,9 +12,9 @@ STR_LABELS = ["a", "b", "c", "d", "e", "f", "g", "h"]
 INT_LABELS = list(range(-2, 11))
 FLOAT_LABELS = [k + 0.5 for k in range(-2, 11)]
 # extended universes, used only when more labels are asked for than the small universe holds ("big" runs)
-BIG_INT_LABELS = list(range(-2, 62))
-BIG_FLOAT_LABELS = [k + 0.5 for k in range(-2, 62)]
-BIG_STR_LABELS = STR_LABELS + [a + b for a in "abcdefgh" for b in "abcdefg"]
+BIG_INT_LABELS = list(range(-2, 200))
+BIG_FLOAT_LABELS = [k + 0.5 for k in range(-2, 200)]
+BIG_STR_LABELS = STR_LABELS + [a + b for a in "abcdefgh" for b in "abcdefghijklmnopqrstuvw"]
 LABEL_KINDS = ["int", "float", "str"]
 ORDERS = ["inc", "dec", "shuf"]
 DTYPES = ["f8", "i8", "i4", "b1", "O"]
